@@ -358,6 +358,13 @@ func (a *Analysis) decide(s *Site) {
 		return
 	}
 	v, how := a.follow(s.Fn, ev, map[ssa.Value]bool{})
+	if v == 1 {
+		// the propagating use must lie on every path from the call: before any
+		// other return or destination write the error is tested or returned
+		if bad := a.examinedOnAllPaths(s.Fn, call, ev); bad != "" {
+			v, how = 2, bad
+		}
+	}
 	switch v {
 	case 1:
 		s.OK = true
@@ -469,6 +476,81 @@ func (a *Analysis) failsOnly(fn *ssa.Function, from, origin *ssa.BasicBlock) str
 		default:
 			for _, s := range b.Succs {
 				stack = append(stack, item{s, b})
+			}
+		}
+	}
+	return ""
+}
+
+// examinedOnAllPaths: on every path from the call, the error value ev (or a
+// phi it flows into) is nil-tested by a branch or returned as the error result
+// before the function returns something else or writes to the destination again.
+func (a *Analysis) examinedOnAllPaths(fn *ssa.Function, call *ssa.Call, ev ssa.Value) string {
+	ridx := errIndex(fn.Signature)
+	carriers := map[ssa.Value]bool{ev: true}
+	// phis fed by ev
+	changed := true
+	for changed {
+		changed = false
+		for c := range carriers {
+			for _, ref := range *c.Referrers() {
+				if ph, ok := ref.(*ssa.Phi); ok && !carriers[ph] {
+					carriers[ph] = true
+					changed = true
+				}
+			}
+		}
+	}
+	tests := func(ifi *ssa.If) bool {
+		bo, ok := ifi.Cond.(*ssa.BinOp)
+		if !ok {
+			return false
+		}
+		return (carriers[bo.X] && isNil(bo.Y)) || (carriers[bo.Y] && isNil(bo.X))
+	}
+	type item struct {
+		b    *ssa.BasicBlock
+		from int
+	}
+	start := -1
+	for i, in := range call.Block().Instrs {
+		if in == ssa.Instruction(call) {
+			start = i + 1
+		}
+	}
+	seen := map[*ssa.BasicBlock]bool{}
+	stack := []item{{call.Block(), start}}
+	for len(stack) > 0 {
+		it := stack[len(stack)-1]
+		stack = stack[:len(stack)-1]
+		done := false
+		for i := it.from; i < len(it.b.Instrs) && !done; i++ {
+			switch x := it.b.Instrs[i].(type) {
+			case *ssa.If:
+				if tests(x) {
+					done = true
+				}
+			case *ssa.Return:
+				if ridx >= 0 && ridx < len(x.Results) && carriers[x.Results[ridx]] {
+					done = true
+				} else {
+					return fmt.Sprintf("error is not examined on the path that returns at %s", a.P.InstrPos(x))
+				}
+			case *ssa.Panic:
+				done = true
+			case ssa.CallInstruction:
+				if x != ssa.CallInstruction(call) && a.IsDestWrite(x) {
+					return fmt.Sprintf("error is not examined before the next destination write at %s", a.P.InstrPos(x))
+				}
+			}
+		}
+		if done {
+			continue
+		}
+		for _, s := range it.b.Succs {
+			if !seen[s] {
+				seen[s] = true
+				stack = append(stack, item{s, 0})
 			}
 		}
 	}
